@@ -1,5 +1,7 @@
 \* thorough: ten groups, primitive quaternions in -3..3 (1120 rational rotations per cell), hkl box -2..2 and
-\* eight hkl with entries up to 499 (the harness adds seeded ones; {1000+h, 11000+k, 21000+l} stands for (h,k,l))
+\* eight hkl with entries up to 499 (the harness adds seeded ones; {1000+h, 11000+k, 21000+l} stands for (h,k,l));
+\* every list of 1..3 columns over the five hkl of ListPool reduced as ONE array (mode l; (249,-250,1): h - k = 499 in
+\* the hexagonal orbit); ListSizes = the lengths the harness scales the emitted hkl to
 SPECIFICATION Spec
 CONSTANTS
   Names = {"cubic", "hexagonal", "trigonal", "rhombohedralP", "tetragonal", "orthorhombic", "monoclinic_c", "monoclinic_a", "monoclinic_b", "triclinic"}
@@ -9,6 +11,10 @@ CONSTANTS
   DoScan = TRUE
   TrigonalFixed = TRUE
   BigHkls = {{1499, 10501, 21499}, {501, 10501, 20501}, {1001, 11400, 20600}, {1000, 11499, 20502}, {999, 10700, 21499}, {1017, 10983, 21499}, {1250, 10750, 21251}, {1499, 11499, 21498}}
+  BlockSize = 0
+  ListMax = 3
+  ListPool = {{1001, 10998, 21003}, {998, 11003, 21001}, {1000, 11000, 21000}, {1017, 10983, 21499}, {1249, 10750, 21001}}
+  ListSizes = {1, 2, 3, 255, 256, 257, 1023, 1025, 4097, 16385, 32769, 65535, 65536, 65537, 131089, 300000, 1048577}
   ConcPairs = {}
   CoarseNames = {}
   Stride = 1
@@ -37,5 +43,8 @@ INVARIANT SameLattice
 INVARIANT HklCanonical
 INVARIANT HklLexMax
 INVARIANT HklNormKept
+INVARIANT ListColumnwise
+INVARIANT ListPositionFree
+INVARIANT ListIsMap
 INVARIANT Emit
 CHECK_DEADLOCK FALSE
